@@ -625,8 +625,8 @@ int main(int argc, char **argv) {
 			long kk = k++; if (!case_begin(kk, s.desc())) return; do_run_case(kk, s);
 		};
 		if (q) {
-			long off = (long)(ctx.seed % 6);
-			for (long i = 0; i < 16; i++) add(DSS, 4, 1, 1 + (off + 6 * i) % 96);
+			long off = (long)(ctx.seed % 4);
+			for (long i = 0; i < 24; i++) add(DSS, 4, 1, 1 + (off + 4 * i) % 96);
 			for (long kk_alter = 1; kk_alter <= 8; kk_alter++) add(NTS, 4, 1, kk_alter);
 		} else {
 			for (long kk_alter = 1; kk_alter <= 100; kk_alter++) add(DSS, 4, 1, kk_alter);
